@@ -129,6 +129,8 @@ def run(spec):
         rec = [ep, -1, _digest_obs(obs), None, {}]
         if spec.get("keep_obs"):
             rec.append(_jsonable(env.agent.observation_manager.current_observation))
+        if spec.get("keep_state"):  # whole normalised simulator state (API state + caches/tables), compared like the observation
+            rec[4] = {"<simulation-state>": norm.s(_jsonable(snap.full(env.game.simulation)))}
         steps.append(rec)
         h.update(json.dumps(rec[:5], sort_keys=True).encode())
         for t, a in enumerate(acts):
@@ -146,6 +148,8 @@ def run(spec):
                 st = getattr(ag, "current_kill_chain_stage", None)
                 if st is not None:
                     sens["tap_stages"].add(getattr(st, "name", str(st)))
+            if spec.get("keep_state"):
+                per["<simulation-state>"] = norm.s(_jsonable(snap.full(env.game.simulation)))
             rec = [ep, t, _digest_obs(obs), float(rew), per]
             if spec.get("keep_obs"):
                 rec.append(_jsonable(env.agent.observation_manager.current_observation))
@@ -181,6 +185,10 @@ def first_divergence(a, b):
             return i, ep, t, "reward", (x[3], y[3])
         for name in x[4]:
             if x[4][name] != y[4].get(name):
+                if name == "<simulation-state>":
+                    from .snap import first_diff
+
+                    return i, ep, t, "simulation-state", first_diff(x[4][name], y[4].get(name))
                 return i, ep, t, f"agent-history:{name}", (x[4][name], y[4].get(name))
         return i, ep, t, "record", None
     if len(a) != len(b):
